@@ -403,13 +403,46 @@ fn intern_pool() -> Vec<V> {
 }
 
 fn run_interning(seq: &[usize], acc: &mut Acc) {
-    let pool = intern_pool();
+    run_interning_pool(&intern_pool(), seq, acc)
+}
+
+/// groups of constants that agree in length and in a long prefix (or suffix) and differ in one
+/// position: any interning key that looks at less than the whole value confuses them
+fn near_collision_groups() -> Vec<Vec<V>> {
+    let mut groups = vec![];
+    for len in [1usize, 2, 7, 8, 9, 31, 32, 33, 63, 64, 65, 66, 127, 128, 129, 255, 256, 257, 1000, 4096] {
+        let base: Vec<char> = std::iter::repeat('a').take(len).collect();
+        let mut variants: Vec<String> = vec![base.iter().collect()];
+        for pos in [0usize, len / 2, len.saturating_sub(2), len - 1] {
+            let mut v = base.clone();
+            v[pos.min(len - 1)] = 'b';
+            variants.push(v.iter().collect());
+        }
+        let mut longer = base.clone();
+        longer.push('a');
+        variants.push(longer.iter().collect());
+        variants.sort();
+        variants.dedup();
+        groups.push(variants.iter().map(|s| V::CharList(s.clone())).collect());
+        groups.push(variants.iter().map(|s| V::ByteList(s.bytes().collect())).collect());
+        // multi-byte text: same character count, different bytes
+        let mb: Vec<String> = vec!["é".repeat(len), format!("{}è", "é".repeat(len - 1)), format!("è{}", "é".repeat(len - 1))];
+        groups.push(mb.into_iter().map(V::CharList).collect());
+    }
+    groups.push(vec![V::Float(1.0), V::Float(1.0000000000000002), V::Float(0.9999999999999999), V::Int(1)]);
+    groups.push(vec![V::Int(i32::MAX), V::Int(i32::MAX - 1), V::Float(2147483647.0), V::Float(2147483648.0)]);
+    groups.push(vec![V::Sym(1), V::Sym(1 << 32), V::Sym((1 << 32) + 1), V::Sym(u64::MAX)]);
+    groups.push(vec![V::Char('a'), V::Char('á'), V::Char('\u{10061}'), V::Byte(97)]);
+    groups
+}
+
+fn run_interning_pool(pool: &[V], seq: &[usize], acc: &mut Acc) {
     let mut d = Simple::fresh();
     let mut seen: Vec<(V, usize)> = vec![];
     for (step, pi) in seq.iter().enumerate() {
         acc.evals += 1;
         let v = &pool[*pi];
-        let shown: Vec<String> = seq[..=step].iter().map(|i| pool[*i].show()).collect();
+        let shown: Vec<String> = seq[..=step].iter().map(|i| pool[*i].show().chars().take(40).collect::<String>()).collect();
         let payload = Json::obj().with("sequence", Json::s(shown.join(" ; ")));
         let a = match construct(&mut d, v) {
             Ok(a) => a,
@@ -424,7 +457,7 @@ fn run_interning(seq: &[usize], acc: &mut Acc) {
             other => {
                 acc.violation(
                     format!("readback-changed|intern|simple|add {}", crate::pool::tname(v.type_of())),
-                    format!("[simple] adding {} returned address {} which reads back {:?} (sequence: {})", v.show(), a, other.map(|x| x.show()), shown.join(" ; ")),
+                    format!("[simple] adding {} returned address {} which reads back {:?} (sequence: {})", v.show().chars().take(80).collect::<String>(), a, other.map(|x| x.show().chars().take(80).collect::<String>()), shown.join(" ; ")),
                     payload,
                 );
                 return;
@@ -486,10 +519,12 @@ pub fn run(ctx: &Ctx) -> (Acc, String, bool) {
     let ilen = ctx.pick(3usize, 4usize);
     let npool = intern_pool().len() as u64;
     let intern_total = npool.pow(ilen as u32);
+    let groups = near_collision_groups();
+    let group_total = groups.len() as u64 * ctx.pick(6, 40);
     let long_total: u64 = ctx.pick(24, 160);
     let long_ops: usize = ctx.pick(1500, 10_000);
     let seed = ctx.seed;
-    let acc = run_cases(ctx, total_h + intern_total + long_total, |i, acc| {
+    let acc = run_cases(ctx, total_h + intern_total + group_total + long_total, |i, acc| {
         if i < total_h {
             let (l, off, _) = per_len.iter().rev().find(|(_, off, _)| *off <= i).cloned().unwrap();
             let mut code = i - off;
@@ -522,6 +557,22 @@ pub fn run(ctx: &Ctx) -> (Acc, String, bool) {
                 let pool = intern_pool();
                 acc.sample(Json::s(format!("interning sequence {:?}", seq.iter().map(|x| pool[*x].show()).collect::<Vec<_>>())));
             }
+        } else if i < total_h + intern_total + group_total {
+            let j = (i - total_h - intern_total) as usize;
+            let g = &groups[j % groups.len()];
+            let mut r = Rng::for_case(seed, i);
+            // a random order with repetitions: every constant added at least once, some twice
+            let mut seq: Vec<usize> = (0..g.len()).collect();
+            for k in (1..seq.len()).rev() {
+                let m = r.below(k + 1);
+                seq.swap(k, m);
+            }
+            for _ in 0..g.len() {
+                seq.push(r.below(g.len()));
+            }
+            run_interning_pool(g, &seq, acc);
+            acc.nontrivial += 1;
+            acc.count("near_collision_sequences");
         } else {
             let mut r = Rng::for_case(seed, i);
             let hist: Vec<Op> = (0..long_ops).map(|_| *r.pick(&OPS)).collect();
@@ -550,7 +601,7 @@ pub fn run(ctx: &Ctx) -> (Acc, String, bool) {
         }
     });
     let rule = format!(
-        "exhaustive: every history of length 1..{} over 9 operation kinds (add number / text|bytes / named symbol / pair|list of earlier values; push instruction; push+patch jump entry; push/pop register; push/pop value; push/pop frame) = {} histories, each on SimpleGarnishData and on BasicGarnishData with initial block sizes 0,1,2 x growth +1,+2,x2(from non-zero) plus default ({} configurations), full read-back sweep of every table + structural invariant (verif hooks) after EVERY operation; Simple interning: every sequence of length {} over {} constants incl. hash-stream alias pairs (Float 1.5 / Integer -13291983 ...) = {}; random: {} histories of {} operations (rolling + periodic full sweeps). distinct_nontrivial counts exhaustive histories in which the data table grew, interning sequences, and distinct random histories.",
+        "exhaustive: every history of length 1..{} over 9 operation kinds (add number / text|bytes / named symbol / pair|list of earlier values; push instruction; push+patch jump entry; push/pop register; push/pop value; push/pop frame) = {} histories, each on SimpleGarnishData and on BasicGarnishData with initial block sizes 0,1,2 x growth +1,+2,x2(from non-zero) plus default ({} configurations), full read-back sweep of every table + structural invariant (verif hooks) after EVERY operation; Simple interning: every sequence of length {} over {} constants incl. hash-stream alias pairs (Float 1.5 / Integer -13291983 ...) = {}; near-collision interning groups (text / byte lists of 20 lengths from 1 to 4096 that agree in length and all but one position, close floats, integers, symbols) added in random orders with repetitions; random: {} histories of {} operations (rolling + periodic full sweeps). distinct_nontrivial counts exhaustive histories in which the data table grew, interning sequences, and distinct random histories.",
         len,
         total_h,
         cfgs.len(),
